@@ -18,6 +18,11 @@ macro_rules! unsafe_linear_float_to_encoded_uint {
             {
                 debug_assert!($table.get(i).is_some());
             }
+            // Verification hook H1: an out-of-range table index becomes an observable panic.
+            #[cfg(palette_verif)]
+            {
+                assert!(i < $table.len(), "verif: lookup table index {} out of range {}", i, $table.len());
+            }
             *$table.get_unchecked(i)
         };
 
